@@ -194,6 +194,19 @@ def observe_program(text, want=("cfg", "func", "ctx", "det"), detectors=DETECTOR
         obs["ok"] = False
         obs["exc"] = "%s: %s" % (type(e).__name__, e)
         obs["tb"] = traceback.format_exc(limit=6)
+        if "cfg" in want and "bbs" not in obs:
+            # the analysis failed: the graph parse_teal() builds on its own is still worth judging (C04 / C05)
+            try:
+                from tealer.teal.parse_teal import parse_teal
+                with contextlib.redirect_stderr(err), contextlib.redirect_stdout(out):
+                    teal = parse_teal(text, name)
+                    obs["instrs"] = [{"line": int(i.line), "text": str(i)} for i in teal.instructions]
+                    obs["bbs"] = [_block(b) for b in teal.bbs]
+                    obs["main"] = _sub(teal.main)
+                    obs["subs"] = [_sub(s) for s in teal.subroutines.values()]
+            except BaseException:  # noqa: BLE001
+                obs.pop("bbs", None)
+    obs["parsed"] = "bbs" in obs or (obs["ok"] and "cfg" not in want)
     obs["stderr"] = err.getvalue()[-2000:]
     return obs
 
